@@ -119,7 +119,13 @@ fn bulk_smol() -> i32 {
         };
         let mut v = Vec::new();
         let recv = async { let _ = b.read_to_end(&mut v).await; };
-        future::zip(send, recv).await;
+        // watchdog: a transfer that stalls (e.g. the sender waiting for the wrong readiness) IS a loss of messages
+        let done = future::or(async { future::zip(send, recv).await; true }, async { async_io::Timer::after(Duration::from_secs(20)).await; false }).await;
+        if !done {
+            println!("transfer stalled: nothing moved for 20 s with the peer reading continuously");
+            println!("REPLAY: FAILS on the real code (messages lost: the transfer never completes)");
+            return 1;
+        }
         judge_bulk(&v)
     })
 }
